@@ -291,6 +291,13 @@ class Monitor:
             res = fn(*args, **kwargs)
             if ev is not None:
                 ev['out'] = signature(res)
+            if self.enabled and not inplace and _is_tt(res):
+                # identity aliasing: a call that is not one of the documented in-place operations hands back one of its own operands - every later
+                # in-place edit of the "result" is then an edit of the operand (and the other way round)
+                for where, o in operands:
+                    if res is o:
+                        self.counters['imm_result_is_operand'] += 1
+                        self._imm_report(op, 'result', where, o, ['result-is-the-operand-object'], [])
             return res
         except BaseException as e:
             if ev is not None:
